@@ -373,8 +373,32 @@ fn run_trial_spawned(script: &Script, rng: &mut Rng, jitter: bool, free: bool) -
             }
         }));
     }
+    let mut panicked: Option<String> = None;
     for h in mh {
-        h.join().unwrap();
+        if let Err(e) = h.join() {
+            let msg = e.downcast_ref::<String>().cloned().or_else(|| e.downcast_ref::<&str>().map(|s| s.to_string())).unwrap_or_else(|| "panic".into());
+            panicked = Some(msg);
+        }
+    }
+    if let Some(msg) = panicked {
+        // inc / dec itself panicked: the script was cut short, so nothing can be said about the
+        // waiters; let them go and report the panic
+        for ws in &states {
+            let mut p = ws.park.lock().unwrap_or_else(|e| e.into_inner());
+            p.woken = true;
+            p.abandon = true;
+            ws.cv.notify_all();
+        }
+        sh.fc.inc(0, 0);
+        for h in wh {
+            let _ = h.join();
+        }
+        return TrialOutcome {
+            violation: Some(("C19:panic-in-flow-control".into(), format!("a FlowControl::inc/dec call panicked: {}", msg))),
+            inconclusive: None,
+            parked: 0,
+            polls: vec![],
+        };
     }
     finish_trial(&sh, &states, wh)
 }
